@@ -68,6 +68,9 @@ class C14(Prop):
                 "rows": gen_rows_over(rng, layout, rng.randint(1, 6), strands=(1, 1, -1, -1, 0)),
                 "buf": rng.choice([1, 2, 3, 7, max(1, w - 1), w + 1, 10**6]),
                 "L": rng.choice([1, 7, 60]),
+                # a third of the cases: one index and one stream object re-used (after a failed scaffold, with
+                # the buffer size changed in between); the value is the second buffer size
+                **({"shared": rng.choice([1, 5, 64, 10**6])} if rng.random() < 0.33 else {}),
             }
 
     def run_impl(self, case):
@@ -110,6 +113,30 @@ class C14(Prop):
         fi = ctx.fasta_index(ix["idx"], case["buf"])
         sc = Scaffold("s", [A.row_to_obj(r) for r in case["rows"]])
         rev_rows = [A.obj_to_row(r) for r in sc.reverse().rows]
+        if case.get("shared"):
+            # ONE index and ONE stream object for everything: first a scaffold that fails part way (a good row,
+            # then a contig the index does not have), then s, then -- with another buffer size -- reverse(s)
+            import io
+
+            from tola.assembly.fragment import Fragment as _F
+            from tola.fasta.stream import FastaStream
+
+            st = FastaStream(io.BytesIO(), fi, line_length=case["L"])
+            good = [A.row_to_obj(r) for r in case["rows"] if r[0] == "F"][:1]
+            try:
+                st.write_scaffold(Scaffold("bad", good + [_F("no_such_contig", 1, 5, 1)]))
+            except Exception:
+                pass
+            outs = []
+            for rows_, buf_ in ((case["rows"], case["buf"]), (rev_rows, case["shared"])):
+                fi.buffer_size = buf_
+                st.out = io.BytesIO()
+                try:
+                    st.write_scaffold(Scaffold("s", [A.row_to_obj(r) for r in rows_]))
+                    outs.append(st.out.getvalue().decode("latin-1"))
+                except Exception as e:
+                    outs.append({"err": type(e).__name__})
+            return {"index": ix, "rev_rows": rev_rows, "fwd": outs[0], "rev": outs[1]}
         fwd = F.stream_impl(fi, [{"name": "s", "rows": case["rows"]}], case["L"])
         fi2 = ctx.fasta_index(ix["idx"], case["buf"])
         rev = F.stream_impl(fi2, [{"name": "s", "rows": rev_rows}], case["L"])
